@@ -12,6 +12,16 @@ impl crate::common::phys::PhysLayer {
     #[verifier::external_body]
     pub fn new_tcp(socket: TcpStream) -> (r: crate::common::phys::PhysLayer) ensures r.sent.len() == 0, { unimplemented!() }
 }
+// serial ports
+pub struct SerialStream { pub x: u8 }
+#[derive(Clone, Copy)]
+pub struct SerialSettings { pub x: u8 }
+#[verifier::external_body]
+pub fn open(path: &str, settings: SerialSettings) -> (r: Result<SerialStream, std::io::Error>) { unimplemented!() }
+impl crate::common::phys::PhysLayer {
+    #[verifier::external_body]
+    pub fn new_serial(stream: SerialStream) -> (r: crate::common::phys::PhysLayer) ensures r.sent.len() == 0, { unimplemented!() }
+}
 pub struct HostAddr { pub x: u8 }
 impl HostAddr {
     #[verifier::external_body]
